@@ -344,7 +344,7 @@ def playback(scratch, h):
     rc, out, secs, to = run(cmd, cwd=os.path.join(scratch, h.unit.crate), timeout=h.timeout * 2 + 300)
     out = _strip_noise(out)
     tests = []
-    for m in re.finditer(r"/// Check for `(\w+)`: \"(.*?)\"\s*\n(?:.*\n)*?\s*let concrete_vals: Vec<Vec<u8>> = vec!\[(.*?)\n\s*\];", out):
+    for m in re.finditer(r"/// Check for `(\w+)`: \"(.*?)\"\s*\n(?:[^\n]*\n)*?\s*let concrete_vals: Vec<Vec<u8>> = vec!\[(.*?)\n\s*\];", out, re.S):
         kind, desc = m.group(1), m.group(2)
         vals, dec = [], []
         for l in m.group(3).splitlines():
